@@ -1196,6 +1196,8 @@ package mcp
 // c.incoming) only if the standard-header check, when it ran, accepted the request, and no error reply has been
 // written for this POST.
 //@   assert at call send:c.incoming: @nothing-is-dispatched-after-a-header-mismatch calls(t2) == 0 || lastResult(t2, 0) == nil
+//@   assert at call send:c.incoming: @a-single-message-is-dispatched-only-after-its-standard-headers-were-checked !local(isBatch) ==> len(local(incoming)) == 1 && calls(t2) == 1 && lastResult(t2, 0) == nil
+//@   assert at call send:c.incoming: @a-batch-is-dispatched-only-under-a-protocol-version-that-has-batches local(isBatch) ==> local(protocolVersion) < protocolVersion20250618
 //@   assert at call send:c.incoming: @nothing-is-dispatched-after-an-error-reply calls(t4) == 0 && calls(t9) == 0
 //@   track http.Error as t9
 //@   loop 3: invariant @ids-seen-so-far-are-not-in-flight c.requestStreams == at(locked_cmu_1, c.requestStreams) && (forall id jsonrpc2.ID :: {inDom(c.requestStreams, id)} (id in $visited) ==> !inDom(c.requestStreams, id)) && (forall id jsonrpc2.ID :: {inDom(c.requestStreams, id)} inDom(c.requestStreams, id) <==> at(locked_cmu_1, inDom(c.requestStreams, id)))
@@ -1649,7 +1651,8 @@ package mcp
 //@   modifies *
 //@   ensures @an-element-that-does-not-decode-fails-the-batch calls(dec) >= 1 && lastResult(dec, 1) != nil ==> result.2 != nil
 //@   ensures @a-batch-is-never-empty result.1 && result.2 == nil ==> len(result.0) >= 1
-//@   ensures @a-single-message-is-not-a-batch !result.1 ==> len(result.0) == 1 && calls(dec) == 1 && result.2 == lastResult(dec, 1)
+//@   ensures @a-single-message-is-not-a-batch !result.1 ==> len(result.0) == 1
+//@   ensures @a-single-message-is-decoded-once !result.1 ==> calls(dec) == 1 && result.2 == lastResult(dec, 1)
 //@   loop 1: invariant @one-message-per-element len(local(msgs)) == $idx && calls(dec) == $idx && (calls(dec) >= 1 ==> lastResult(dec, 1) == nil)
 // C19 (required members are present and non-null): the list arrays the server and client put into results are never
 // nil, even when there is nothing to list - one item per listed feature, in order.
